@@ -85,6 +85,76 @@ theorem sh_failWith (e : OpErr) : RelS (Sh bp k N a) (PostC bp k L) (failWith e)
   have := failWith_child e s h.curS h.fiS h.frame.hS r s' h1
   exact Or.inr this
 
+/-! ### more primitive rules -/
+
+/-- the local-variable operand of the current instruction is below `L` (= `NumLocals`) -/
+def OpLt (L : Nat) (s : State) : Prop := ∀ idx s', exec (opnd1 1) s = (.ok idx, s') → idx < L
+
+theorem sh_opnd1_lt :
+    RelS (fun s t => Sh bp k N a s t ∧ OpLt L s) (PQ (fun x y => x = y ∧ x < L) (Sh bp k N a)) (opnd1 1) (opnd1 1) := by
+  intro s t h x s' y t' h1 h2
+  have := sh_foot (foot_opnd1 1) s t h.1 x s' y t' h1 h2
+  exact ⟨⟨this.1, h.2 x s' h1⟩, this.2⟩
+
+theorem sh_getS : RelS (Sh bp k N a) (PQ (Sh bp k N a) (Sh bp k N a)) getS getS := by
+  intro s t h x s' y t' h1 h2
+  simp only [exec_getS, Prod.mk.injEq, Except.ok.injEq] at h1 h2
+  obtain ⟨rfl, rfl⟩ := h1
+  obtain ⟨rfl, rfl⟩ := h2
+  exact ⟨h, h⟩
+
+theorem sh_setModule (i : Nat) (v : V) :
+    RelS (Sh bp k N a) (PQ (fun _ _ => True) (Sh bp k N a))
+      (modS fun s => { s with modules := s.modules.set! i v }) (modS fun s => { s with modules := s.modules.set! i v }) := by
+  intro s t h x s' y t' h1 h2
+  simp only [exec_modS, Prod.mk.injEq, Except.ok.injEq] at h1 h2
+  obtain ⟨_, rfl⟩ := h1
+  obtain ⟨_, rfl⟩ := h2
+  exact ⟨trivial, { h with modules := by simp [h.modules], shapeS := ⟨h.shapeS.stack, h.shapeS.frames⟩,
+                            shapeT := ⟨h.shapeT.stack, h.shapeT.frames⟩ }⟩
+
+theorem exec_stackSlice' (lo hi : Int) (s : State) :
+    exec (stackSlice lo hi) s =
+      if lo < 0 || hi > (stackSize : Int) || lo > hi then
+        (.error (.panic s!"runtime error: slice bounds out of range [{lo}:{hi}]"), s)
+      else (.ok ((s.stack.toList.drop lo.toNat).take (hi - lo).toNat), s) := by
+  unfold stackSlice
+  split
+  · rfl
+  · simp only [exec_bind, exec_getS, exec_pure]
+
+theorem sh_stackSlice (lo hi lo' hi' : Int) (h1 : lo' = lo + bp) (h2 : hi' = hi + bp) (hN : hi ≤ N) :
+    RelS (Sh bp k N a) (PQ Eq (Sh bp k N a)) (stackSlice lo hi) (stackSlice lo' hi') := by
+  intro s t h x s' y t' e1 e2
+  rw [exec_stackSlice'] at e1 e2
+  by_cases hb : (decide (lo < 0) || decide (hi > (stackSize : Int)) || decide (lo > hi)) = true
+  · rw [if_pos hb] at e1; simp at e1
+  · rw [if_neg hb] at e1
+    by_cases hb' : (decide (lo' < 0) || decide (hi' > (stackSize : Int)) || decide (lo' > hi')) = true
+    · rw [if_pos hb'] at e2; simp at e2
+    · rw [if_neg hb'] at e2
+      simp only [Prod.mk.injEq, Except.ok.injEq] at e1 e2
+      obtain ⟨rfl, rfl⟩ := e1
+      obtain ⟨rfl, rfl⟩ := e2
+      simp only [Bool.or_eq_true, decide_eq_true_eq, not_or, Int.not_lt, ge_iff_le, Int.not_le] at hb hb'
+      refine ⟨?_, h⟩
+      apply List.ext_getElem?
+      intro i
+      have e : (hi' - lo').toNat = (hi - lo).toNat := by omega
+      rw [e]
+      simp only [List.getElem?_take, List.getElem?_drop]
+      by_cases hlt : i < (hi - lo).toNat
+      · simp only [hlt, if_true]
+        have hs := h.stack (lo.toNat + i) (by omega)
+        have hsz1 := h.shapeS.stack
+        have hsz2 := h.shapeT.stack
+        have l1 : lo.toNat + i < s.stack.size := by rw [hsz1]; omega
+        have l2 : lo'.toNat + i < t.stack.size := by rw [hsz2]; omega
+        have e' : bp + (lo.toNat + i) = lo'.toNat + i := by omega
+        rw [e', getElem!_pos s.stack _ l1, getElem!_pos t.stack _ l2] at hs
+        simp only [Array.getElem?_toList, Array.getElem?_eq_getElem l1, Array.getElem?_eq_getElem l2, hs]
+      · simp only [hlt, if_false]
+
 /-! ### automation -/
 
 syntax "sh_prim" : tactic
@@ -92,16 +162,20 @@ macro_rules | `(tactic| sh_prim) => `(tactic| first
   | exact sh_getSp
   | exact sh_setSp _ _ (by omega)
   | exact sh_stackGet _ _ (by omega) (by omega)
+  | exact sh_stackSet _ _ _ (by omega) (max _ (Int.toNat _ + 1)) (by omega)
   | exact sh_stackSet _ _ _ (by omega) _ (fun _ => Or.inl (Nat.le_refl _))
+  | exact sh_stackSlice _ _ _ _ (by omega) (by omega) (by omega)
   | exact sh_pushV _ (by omega)
   | exact sh_setIp _
   | exact sh_bumpIp _
-  | exact sh_foot (by foot))
+  | exact sh_setModule _ _
+  | (apply sh_foot; foot; all_goals fail "foot: stuck"))
 
 syntax "sh1" : tactic
 macro_rules | `(tactic| sh1) => `(tactic| first
   | exact sh_failWith _
   | exact sh_next (by omega) (by omega)
+  | exact RelS.errL _
   | ((with_reducible apply RelS.bindV)
      · sh_prim
      intro x__ y__ h__
@@ -109,8 +183,26 @@ macro_rules | `(tactic| sh1) => `(tactic| first
        | (obtain ⟨h1__, h2__⟩ := h__; subst h1__; subst h2__)
        | subst h__
        | skip)
+  | ((with_reducible apply RelS.bindV)
+     · exact sh_curFrame
+     intro f__ g__ h__
+     obtain ⟨fn1__, fr1__, ip1__, bp1__, hs1__, d1__⟩ := f__
+     obtain ⟨fn2__, fr2__, ip2__, bp2__, hs2__, d2__⟩ := g__
+     obtain ⟨e1__, e2__, e3__, e4__, e5__, e6__, e7__⟩ := h__
+     simp only at e1__ e2__ e3__ e4__ e5__ e6__ e7__
+     subst e1__ e2__ e3__ e4__ e5__ e6__ e7__
+     dsimp only)
+  | ((with_reducible apply RelS.bindV)
+     · exact sh_getS
+     intro x__ y__ h__
+     have hm__ := h__.modules
+     have hg__ := h__.globals
+     simp only [hm__, hg__]
+     clear hm__ hg__ h__)
   | apply RelS.ite
-  | split)
+  | split
+  | simp only [bind_assoc, pure_bind]
+  | dsimp only)
 
 syntax "shrun" : tactic
 macro_rules | `(tactic| shrun) => `(tactic| repeat sh1)
@@ -146,6 +238,55 @@ theorem sh_execBinaryOp (F : FloatOps) (ha : a ≤ N) (hL : L ≤ N) :
 theorem sh_execUnary (F : FloatOps) (ha : a ≤ N) (hL : L ≤ N) :
     RelS (Sh bp k N a) (PostC bp k L) (execUnary F) (execUnary F) := by
   unfold execUnary; shrun
+
+
+theorem sh_execGetLocal (ha : a ≤ N) (hL : L ≤ N) :
+    RelS (fun s t => Sh bp k N a s t ∧ OpLt L s) (PostC bp k L) execGetLocal execGetLocal := by
+  unfold execGetLocal
+  refine RelS.bindV sh_opnd1_lt ?_
+  intro idx _ ⟨h1, hidx⟩
+  subst h1
+  shrun
+theorem sh_execSetLocal (ha : a ≤ N) (hL : L ≤ N) :
+    RelS (fun s t => Sh bp k N a s t ∧ OpLt L s) (PostC bp k L) execSetLocal execSetLocal := by
+  unfold execSetLocal
+  refine RelS.bindV sh_opnd1_lt ?_
+  intro idx _ ⟨h1, hidx⟩
+  subst h1
+  shrun
+theorem sh_execGetLocalPtr (ha : a ≤ N) (hL : L ≤ N) :
+    RelS (fun s t => Sh bp k N a s t ∧ OpLt L s) (PostC bp k L) execGetLocalPtr execGetLocalPtr := by
+  unfold execGetLocalPtr
+  refine RelS.bindV sh_opnd1_lt ?_
+  intro idx _ ⟨h1, hidx⟩
+  subst h1
+  shrun
+theorem sh_execDefineLocal (ha : a ≤ N) (hL : L ≤ N) : RelS (Sh bp k N a) (PostC bp k L) execDefineLocal execDefineLocal := by
+  unfold execDefineLocal; shrun
+theorem sh_execGetFree (ha : a ≤ N) (hL : L ≤ N) : RelS (Sh bp k N a) (PostC bp k L) execGetFree execGetFree := by
+  unfold execGetFree; shrun
+theorem sh_execSetFree (ha : a ≤ N) (hL : L ≤ N) : RelS (Sh bp k N a) (PostC bp k L) execSetFree execSetFree := by
+  unfold execSetFree; shrun
+theorem sh_execGetFreePtr (ha : a ≤ N) (hL : L ≤ N) : RelS (Sh bp k N a) (PostC bp k L) execGetFreePtr execGetFreePtr := by
+  unfold execGetFreePtr; shrun
+theorem sh_execGetGlobal (ha : a ≤ N) (hL : L ≤ N) : RelS (Sh bp k N a) (PostC bp k L) execGetGlobal execGetGlobal := by
+  unfold execGetGlobal; shrun
+theorem sh_execSetGlobal (ha : a ≤ N) (hL : L ≤ N) : RelS (Sh bp k N a) (PostC bp k L) execSetGlobal execSetGlobal := by
+  unfold execSetGlobal; shrun
+theorem sh_execSetIndex (ha : a ≤ N) (hL : L ≤ N) : RelS (Sh bp k N a) (PostC bp k L) execSetIndex execSetIndex := by
+  unfold execSetIndex; shrun
+set_option maxHeartbeats 3200000 in
+theorem sh_execSliceIndex (ha : a ≤ N) (hL : L ≤ N) : RelS (Sh bp k N a) (PostC bp k L) execSliceIndex execSliceIndex := by
+  unfold execSliceIndex; shrun
+theorem sh_execIterInit (ha : a ≤ N) (hL : L ≤ N) : RelS (Sh bp k N a) (PostC bp k L) execIterInit execIterInit := by
+  unfold execIterInit; shrun
+theorem sh_execIterNext (op : Nat) (ha : a ≤ N) (hL : L ≤ N) :
+    RelS (Sh bp k N a) (PostC bp k L) (execIterNext op) (execIterNext op) := by
+  unfold execIterNext; shrun
+theorem sh_execLoadModule (ha : a ≤ N) (hL : L ≤ N) : RelS (Sh bp k N a) (PostC bp k L) execLoadModule execLoadModule := by
+  unfold execLoadModule; shrun
+theorem sh_execStoreModule (ha : a ≤ N) (hL : L ≤ N) : RelS (Sh bp k N a) (PostC bp k L) execStoreModule execStoreModule := by
+  unfold execStoreModule; shrun
 
 end
 end UgoVerif.Proofs.Shift
